@@ -463,6 +463,20 @@ def do_dplik(ctx, batch, case):
                   if all(a in (0, 1) for a in impl["superreads"][order.index(s)][ci][1:])
                   and sorted(impl["superreads"][order.index(s)][ci][1:], reverse=True) != list(case["gts"][s][ci]))
     ctx.dist("lik_changed_genotypes", min(changed, 5))
+    # the writer's rule (genotype {a0, a1} where both alleles are definite, the input genotype otherwise) applied to the super
+    # reads: with a tie flag in the trio the OUTPUT genotypes can be in conflict although the input genotypes were not
+    idx = {s: i for i, s in enumerate(order)}
+    for f, m, c in trios:
+        for ci in range(ncols):
+            og = {}
+            for s in (f, m, c):
+                a = impl["superreads"][idx[s]][ci][1:]
+                og[s] = sorted(a, reverse=True) if all(x in (0, 1) for x in a) else list(case["gts"][s][ci])
+            if not feasible_child(og[f], og[m], og[c]) and feasible_child(case["gts"][f][ci], case["gts"][m][ci], case["gts"][c][ci]):
+                ctx.dist("lik_output_conflict_from_tie(input consistent)", True)
+                ctx.observe("likelihood variant: consistent input genotypes, a tie flag on a parent's untransmitted haplotype keeps the "
+                            "parent's input genotype while the child's is rewritten -> Mendelian conflict among the OUTPUT genotypes "
+                            "(outside C05's text; Lean witness in Props/C05.lean)")
     if trios and (changed or n_tie):
         ctx.nontrivial(json.dumps(case, sort_keys=True))
     req = column_requests(order, trios, positions, case["gts"], case["reads"], impl["partitioning"], impl["tv"], gls_by_name=case["gls"])
@@ -688,6 +702,8 @@ def gen_cli_case(rng, mode):
     r = random.Random(sub)
     n_children = 2 if "quartet" in mode else 1
     recomb = mode.split("-")[1] == "recomb"
+    if mode.split("-")[1] == "lik":
+        return gen_cli_lik_case(r, mode, n_children, sub)
     if recomb:
         # recombining children, mostly heterozygous parents, deep error-free long reads (parents and children end up in one
         # phase set), cheap recombination: paternal AND maternal recombinations inside a phase set get detected and listed
@@ -724,12 +740,43 @@ def gen_cli_case(rng, mode):
     return {"kind": "cli", "mode": mode, "data": case, "args": args, "use_ref": r.random() < 0.5, "sub_seed": sub}
 
 
+def gen_cli_lik_case(r, mode, n_children, sub):
+    """`--distrust-genotypes`: PL/GL in the VCF (or none: default_gq), genotyping errors that reads can correct"""
+    from harness.gen import c05_ped as G, c05_lik as L
+    case = G.make_family_case(r, n_children=n_children, n_variants=(10, 22), contig_len=(2500, 4500), all_triples=False,
+                              missing_prob=0.03, conflict_prob=0.04, unrelated=r.random() < 0.2, n_recomb=(0, 2))
+    L.add_likelihoods(r, case, error_prob=r.choice([0.0, 0.1, 0.2]), no_pl_prob=r.choice([0.0, 0.15, 1.0]))
+    if r.random() < 0.5:
+        r.shuffle(case["samples"])
+    for s in case["samples"]:
+        d = r.choice([0, 0.5, 2, 4, 8])
+        if d:
+            G.add_reads(r, case, s, depth=d, read_len=(80, 300), paired_frac=r.choice([0.0, 0.3]), insert=(60, 400),
+                        noise=r.choice([0, 0, 0.05]))
+    args = ["--tag", r.choice(["PS", "PS", "HP"]), "--distrust-genotypes"]
+    if r.random() < 0.4:
+        args.append("--include-homozygous")
+    if r.random() < 0.4:
+        args += ["--default-gq", str(r.choice([5, 10, 60]))]
+    if r.random() < 0.3:
+        args += ["--gl-regularizer", str(r.choice([0.0, 0.001, 0.01, 0.1]))]
+    if r.random() < 0.2:
+        args.append("--no-genetic-haplotyping")
+    if r.random() < 0.35:
+        G.make_genmap(r, case)
+        args += ["--chromosome", "chr1"]
+    else:
+        args += ["--recombrate", str(r.choice([0.01, 1.26, 50, 5000]))]
+    args += ["--internal-downsampling", str(r.choice([4, 9, 15]))]
+    return {"kind": "cli", "mode": mode, "data": case, "args": args, "use_ref": r.random() < 0.5, "sub_seed": sub}
+
+
 def run_cli(ctx, batch, case):
-    from harness.gen import sim, c05_ped as G
+    from harness.gen import sim, c05_ped as G, c05_lik as L
     d = os.path.join(ctx.workdir(), "cli")
     shutil.rmtree(d, ignore_errors=True)
     try:
-        paths = G.write_case(case["data"], d)
+        paths = L.write_case(case["data"], d) if case["data"].get("pl") else G.write_case(case["data"], d)
         out = os.path.join(d, "out.vcf")
         args = ["phase", "-o", out, "--ped", paths["ped"]] + list(case["args"])
         if "genmap" in paths:
@@ -750,7 +797,10 @@ def run_cli(ctx, batch, case):
         except Exception as e:      # the output of a successful run must be a readable VCF
             ctx.fail(f"output VCF of whatshap phase cannot be parsed: {type(e).__name__}: {e}", case, key="output-vcf-unreadable")
             return
-        check_cli(ctx, batch, case, samples, recs, inrecs, trace, read_recombination_list(ctx, case, rl))
+        if "--distrust-genotypes" in case["args"]:
+            check_cli_lik(ctx, batch, case, samples, recs, inrecs, trace)
+        else:
+            check_cli(ctx, batch, case, samples, recs, inrecs, trace, read_recombination_list(ctx, case, rl))
     finally:
         shutil.rmtree(d, ignore_errors=True)
 
@@ -945,6 +995,7 @@ def check_cli(ctx, batch, case, samples, recs, inrecs, trace, rows=None):
             if not set(t["accessible_positions"]) <= keep_pos:
                 ctx.disagree("c05.phaseable(accessible within retained)", case, t["accessible_positions"], sorted(keep_pos))
         batch.add({"op": "c05.phaseable", "tab": tab, "trios": [[fidx[f], fidx[m], fidx[c]] for f, m, c in trios], "include_hom": False}, cb_ph)
+        check_traced_recomb(ctx, batch, case, t)
         sr = [[[a[0], a[1], b[1]] for a, b in zip(t["superreads"][s][0]["variants"], t["superreads"][s][1]["variants"])] for s in fam]
         ids = t["numeric_sample_ids"]
         name_of = {ids[s]: s for s in fam}
@@ -958,6 +1009,13 @@ def check_cli(ctx, batch, case, samples, recs, inrecs, trace, rows=None):
                 if ans != want:
                     ctx.disagree("c05.columns(trace)", case, want, ans)
             batch.add(req, cb_sr)
+
+            def cb_cost(req, ans, t=t):
+                rc = transition_cost(t["recombination_costs"], t["transmission_vector"])
+                if any(a is None for a in ans) or sum(ans) + rc != t["cost"]:
+                    ctx.disagree("c05.costs(trace: optimal cost = column costs + recombination costs)", case, t["cost"],
+                                 {"columns": ans, "recombination": rc})
+            batch.add(dict(req, op="c05.costs"), cb_cost)
         # super-read level oracle too (all positions, not only those the writer phased)
         superread_oracle(ctx, case, fam, trios, acc, t["genotypes"], sr, tv, "whatshap phase (trace)")
         # the reported transmission: --recombination-list
@@ -984,6 +1042,161 @@ def check_cli(ctx, batch, case, samples, recs, inrecs, trace, rows=None):
     if len(ctx.samples) < 4:
         ctx.sample({"cli_args": case["args"], "mode": case["mode"], "samples": samples, "trios": data["trios"],
                     "gt": {s: data["gt"][s][:8] for s in data["samples"]}})
+
+
+def option_value(args, name, default, conv=float):
+    return conv(args[args.index(name) + 1]) if name in args else default
+
+
+def check_traced_recomb(ctx, batch, case, t):
+    """the vector handed to the solver (trace) = the model's cost map of the accessible positions, for the genetic map /
+    recombination rate of this run"""
+    data = case["data"]
+    acc = t["accessible_positions"]
+    if data.get("genmap"):
+        rc = {"kind": "recomb", "positions": acc, "map": [[p, float(repr(c))] for p, _, c in data["genmap"]], "rate": None}
+    else:
+        rc = {"kind": "recomb", "positions": acc, "map": None, "rate": option_value(case["args"], "--recombrate", 1.26)}
+    got = [int(x) for x in t["recombination_costs"]]
+    ctx.dist("cli_recombination_cost_values", min(len(set(got[1:])), 6))
+
+    def cb(req, ans, got=got):
+        ctx.validated()
+        if ans != {"ok": got}:
+            ctx.disagree("c05.recomb(trace)", case, got, ans)
+    batch.add(recomb_request(rc), cb)
+    mean = recomb_meaning(rc)
+    if mean is not None and (len(mean) != len(got) or any(not (lo <= v <= hi) for v, (lo, hi) in zip(got, mean))):
+        ctx.disagree("c05.recomb(trace, meaning)", case, got, mean)
+
+
+def check_cli_lik(ctx, batch, case, samples, recs, inrecs, trace):
+    """`whatshap phase --ped --distrust-genotypes`: correspondence of every stage with the model (likelihoods handed to the
+    solver, phasable variants, recombination costs, super reads and optimal cost, genotypes and phase written) and the
+    clauses proved for the likelihood variant on the traced super reads and on the OUTPUT genotypes.  The property text is
+    about trusted genotypes: nothing here is reported as a property violation."""
+    from harness.gen import c05_ped as G
+    data, args = case["data"], case["args"]
+    genetic = "--no-genetic-haplotyping" not in args
+    include_hom = "--include-homozygous" in args
+    default_gq = option_value(args, "--default-gq", 30, int)
+    reg = option_value(args, "--gl-regularizer", None)
+    ctx.dist("cli_mode", case["mode"]); ctx.dist("cli_genmap", bool(data.get("genmap")))
+    ctx.dist("lik_cli_include_homozygous", include_hom); ctx.dist("lik_cli_regularizer", reg is not None)
+    sidx = {s: samples.index(s) for s in samples}
+    in_gt = {s: [GT_LIST_of(r["calls"][sidx[s]]["GT"]) for r in inrecs] for s in samples}
+    pos_list = [r["pos"] for r in inrecs]
+    vi_of = {p: i for i, p in enumerate(pos_list)}
+    phase = {s: G.decode_calls(recs, sidx[s]) for s in samples}
+    out_gt = {s: {r["pos"]: GT_LIST_of(r["calls"][sidx[s]].get("GT")) for r in recs} for s in samples}
+    n_changed = n_phased = 0
+    for t in trace:
+        fam, trios = t["family"], t["trios"]
+        want = sorted(tuple(tr) for tr in data["trios"] if tr[2] in fam)
+        if sorted(tuple(tr) for tr in trios) != want:
+            ctx.disagree("pedigree structure handed to the solver", case, trios, want)
+            continue
+        acc, tv = t["accessible_positions"], t["transmission_vector"]
+        fidx = {s: i for i, s in enumerate(fam)}
+        if len(fam) > 1:
+            check_traced_recomb(ctx, batch, case, t)
+        # ---- likelihoods handed to the solver = create_pedigree's, from the input records
+        calls, where = [], []
+        for s in fam:
+            for ci, p in enumerate(acc):
+                c = inrecs[vi_of[p]]["calls"][sidx[s]]
+                got = t["genotype_likelihoods"][s][ci]
+                got = None if got is None else [int(x) if float(x).is_integer() else x for x in got]
+                if c.get("GL") is not None:
+                    calls.append(({"calls": [[fl(float(x)) for x in c["GL"]]]}, got, (s, p)))
+                elif c.get("PL") is not None:
+                    calls.append(({"pls": [list(c["PL"])]}, got, (s, p)))
+                    if reg is None and got != [x - min(c["PL"]) for x in c["PL"]]:
+                        ctx.disagree("plToPhred(trace)", case, {"sample": s, "pos": p, "PL": list(c["PL"]), "handed to the solver": got},
+                                     [x - min(c["PL"]) for x in c["PL"]])
+                else:
+                    g = sum(in_gt[s][vi_of[p]])
+                    if got != [0 if k == g else default_gq for k in range(3)]:
+                        ctx.disagree("defaultGl(trace)", case, {"sample": s, "pos": p, "handed to the solver": got},
+                                     [0 if k == g else default_gq for k in range(3)])
+        for body, got, (s, p) in calls:
+            def cb_gl(req, ans, got=got, s=s, p=p):
+                if ans[0] != got:
+                    ctx.disagree("c05.as_phred(trace)", case, {"sample": s, "pos": p, "handed to the solver": got}, ans[0])
+            batch.add(dict(body, op="c05.as_phred", reg=None if reg is None else fl(reg)), cb_gl)
+        # ---- phasable variants
+        tab = [in_gt[s] for s in fam]
+
+        def cb_ph(req, ans, t=t):
+            ctx.validated()
+            keep_pos = {pos_list[i] for i in ans["keep"]}
+            hom_pos = sorted(pos_list[i] for i in ans["hom"])
+            if hom_pos != sorted(t["homozygous_positions"]):
+                ctx.disagree("c05.phaseable(homozygous_positions, distrust)", case, sorted(t["homozygous_positions"]), hom_pos)
+            if not set(t["accessible_positions"]) <= keep_pos:
+                ctx.disagree("c05.phaseable(accessible within retained, distrust)", case, t["accessible_positions"], sorted(keep_pos))
+        batch.add({"op": "c05.phaseable", "tab": tab, "trios": [[fidx[f], fidx[m], fidx[c]] for f, m, c in trios], "include_hom": include_hom}, cb_ph)
+        # ---- super reads and optimal cost
+        sr = [[[a[0], a[1], b[1]] for a, b in zip(t["superreads"][s][0]["variants"], t["superreads"][s][1]["variants"])] for s in fam]
+        ids = t["numeric_sample_ids"]
+        name_of = {ids[s]: s for s in fam}
+        reads = [{"name": i, "sample": name_of[r["sample_id"]], "variants": r["variants"]} for i, r in enumerate(t["all_reads"])]
+        part = {i: p for i, p in enumerate(t["partitioning"] or [])}
+        gls = {s: [[int(x) for x in g] for g in t["genotype_likelihoods"][s]] for s in fam}
+        if acc and t["partitioning"] is not None:
+            req = column_requests(fam, trios, acc, t["genotypes"], reads, part, tv, gls_by_name=gls)
+
+            def cb_sr(req, ans, sr=sr, acc=acc, t=t):
+                want = [[[x[ci][1], x[ci][2]] for x in sr] for ci in range(len(acc))]
+                got = [a["alleles"] if isinstance(a, dict) else a for a in ans]
+                if got != want:
+                    ctx.disagree("c05.lik_columns(trace)", case, want, got)
+                    return
+                costs = [a["cost"] for a in ans]
+                rc = transition_cost(t["recombination_costs"], t["transmission_vector"])
+                if any(x is None for x in costs) or sum(costs) + rc != t["cost"]:
+                    ctx.disagree("c05.lik_columns(trace: optimal cost = column costs + recombination costs)", case, t["cost"],
+                                 {"columns": costs, "recombination": rc})
+            batch.add(req, cb_sr)
+        n_def, n_tie = lik_oracle(ctx, case, fam, trios, acc, sr, tv, "whatshap phase --distrust-genotypes (trace)")
+        ctx.dist("lik_cli_trio_columns_with_tie", min(n_tie // 3 * 3, 30))
+        # ---- the writer: genotype {a0, a1} where both super-read alleles are definite, input genotype otherwise; phased iff
+        # the position has a component, both alleles are definite and the (new) genotype is heterozygous
+        comps = {a: b for a, b in t["overall_components"]}
+        bad_writer = False
+        for s in fam:
+            srs = {x[0]: (x[1], x[2]) for x in sr[fidx[s]]}
+            for vi, pos in enumerate(pos_list):
+                g = in_gt[s][vi]
+                definite = pos in srs and all(a in (0, 1) for a in srs[pos])
+                og = sorted(srs[pos], reverse=True) if definite else g
+                n_changed += og != g
+                model = (comps[pos] + 1, tuple(srs[pos])) if (pos in comps and definite and sorted(og) == [0, 1]) else None
+                got = phase[s].get(pos)
+                n_phased += got is not None
+                if (got != model or out_gt[s].get(pos) != og) and not bad_writer:
+                    bad_writer = True
+                    ctx.disagree("writer(distrust): genotype and phase", case,
+                                 {"sample": s, "pos": pos, "input": g, "superread": srs.get(pos), "output_gt": out_gt[s].get(pos), "output_phase": got},
+                                 {"gt": og, "phase": model})
+        # ---- OUTPUT genotypes: where the six super-read alleles of a trio are definite the written genotypes have no conflict
+        for f, m, c in trios:
+            for ci, pos in enumerate(acc):
+                six = [x for who in (f, m, c) for x in sr[fidx[who]][ci][1:]]
+                if all(x in (0, 1) for x in six):
+                    gf, gm, gc = out_gt[f].get(pos), out_gt[m].get(pos), out_gt[c].get(pos)
+                    if gf and gm and gc and not feasible_child(gf, gm, gc):
+                        ctx.disagree("lik_output_genotypes_mendelian(output VCF)", case, {"pos": pos, "father": gf, "mother": gm, "child": gc},
+                                     "no Mendelian conflict among the written genotypes of a trio whose super-read alleles are definite")
+                elif pos in out_gt[c]:
+                    gf, gm, gc = out_gt[f].get(pos), out_gt[m].get(pos), out_gt[c].get(pos)
+                    if gf and gm and gc and not feasible_child(gf, gm, gc):
+                        ctx.dist("lik_cli_output_conflict_with_tie", True)
+                        ctx.observe("--distrust-genotypes: a trio's OUTPUT genotypes have a Mendelian conflict at a variant where a "
+                                    "super-read allele carries a tie flag (the tied member keeps its input genotype); outside C05's text")
+    ctx.dist("lik_cli_changed_genotypes", min(n_changed // 2 * 2, 20))
+    if n_changed and n_phased:
+        ctx.nontrivial(json.dumps([data["gt"], args, len(data["reads"])]))
 
 
 def GT_LIST_of(gt):
@@ -1043,7 +1256,7 @@ def run(ctx):
              "quartet-deep", "trio-sparse", "quartet-sparse", "trio-noreads-nogenetic", "trio-deep-nogenetic",
              "quartet-sparse-nogenetic", "trio-deep", "quartet-deep", "trio-sparse", "quartet-noreads", "trio-noreads",
              "quartet-deep-nogenetic", "quartet-sparse", "trio-recomb", "quartet-recomb", "trio-recomb", "quartet-recomb",
-             "trio-recomb", "quartet-recomb"]
+             "trio-recomb", "quartet-recomb", "trio-lik", "quartet-lik", "trio-lik", "quartet-lik", "trio-lik", "quartet-lik"]
     if not ctx.quick:
         modes = modes * 10
     for m in modes * ctx.scale:
